@@ -138,7 +138,23 @@ fn build(_ctx: &Ctx, tier: Tier, seed: u64) -> Vec<Job<'static>> {
         n,
         gen: Box::new(move |i| tx_scenario(&p4(i, &b4, &a4), [1u8, 2, 4, 8][i % 4])),
     };
-    vec![j_dest, j_req1, j_req2, j_src]
+    // direct calls of the filestore operations (a local user of the library): every operation x
+    // hostile first name, and the two-name operations x hostile second name
+    let (b5, a5) = (base.clone(), all4.clone());
+    let p5 = pick.clone();
+    let j_direct = Job {
+        label: "local user: every filestore operation called directly (create, delete, rename, append, replace, mkdir, rmdir, open for writing / reading, size, listing) x hostile first name; rename / append / replace x hostile second name".into(),
+        n: n * 16,
+        gen: Box::new(move |i| {
+            let name = p5(i / 16, &b5, &a5);
+            let k = i % 16;
+            let (action, first, second) = if k < 13 { (k as u8, name, "inside.txt".to_string()) } else { ([2u8, 3, 4][k - 13], "inside.txt".to_string(), name) };
+            let mut sc = rx_scenario("delivered.bin", vec![], 4, [1u8, 2, 4, 8][i % 4]);
+            sc.script.push(Entry::FsFault { ent: 1, op: format!("call:{}:{}:{}", action, hex(first.as_bytes()), hex(second.as_bytes())), nth: u32::MAX });
+            sc
+        }),
+    };
+    vec![j_dest, j_req1, j_req2, j_src, j_direct]
 }
 
 fn lexical(p: &str) -> Vec<String> {
